@@ -147,39 +147,32 @@ theorem forceNextLine_guarded (w hW taken : Nat) (h : forceNextLine (some w) hW 
 
 /-! #### the possible-values column of long help -/
 
-theorem foldl_max_len_ge (ns : List Bytes) (m : Nat) (x : Bytes) (h : x ∈ ns) :
-    x.length ≤ ns.foldl (fun m x => max m x.length) m := foldl_max_ge_mem (fun (x : Bytes) => x.length) ns m x h
-
 /-- **the `expect("Only called with possible value")` cannot fail and the name padding is
 defined**: the column is written only when some visible value has help, and then every
-visible value's `longest - width(name)` is defined -/
+visible value's `longest - display_width(name)` is defined (for any display widths) -/
 theorem pv_padding_defined (a : HArg) (h : useLongPv true a = true) :
     (pvLongest a).isSome = true ∧ ∀ pv ∈ a.pvs, pv.hide = false → (pvPadding a pv).isSome = true := by
-  have hne : visiblePvNames a ≠ [] := by
+  have hne : a.pvs.filter (!·.hide) ≠ [] := by
     simp only [useLongPv, Bool.true_and, List.any_eq_true] at h
     obtain ⟨pv, hpv, hv⟩ := h
-    have : pv.name ∈ visiblePvNames a := by
-      simp only [visiblePvNames, List.mem_map, List.mem_filter]
-      exact ⟨pv, ⟨hpv, by simp at hv; simp [hv.1]⟩, rfl⟩
+    have : pv ∈ a.pvs.filter (!·.hide) := List.mem_filter.2 ⟨hpv, by simp at hv; simp [hv.1]⟩
     intro he; rw [he] at this; simp at this
   constructor
   · unfold pvLongest; split
     · next he => exact absurd he hne
     · rfl
   · intro pv hpv hh
-    have hm : pv.name ∈ visiblePvNames a := by
-      simp only [visiblePvNames, List.mem_map, List.mem_filter]
-      exact ⟨pv, ⟨hpv, by simp [hh]⟩, rfl⟩
+    have hm : pv ∈ a.pvs.filter (!·.hide) := List.mem_filter.2 ⟨hpv, by simp [hh]⟩
     unfold pvPadding pvLongest
-    cases he : visiblePvNames a with
+    cases he : a.pvs.filter (!·.hide) with
     | nil => exact absurd he hne
     | cons n ns =>
       simp only [checkedSub]
       rw [he] at hm
-      have : pv.name.length ≤ ns.foldl (fun m x => max m x.length) n.length := by
+      have : pv.w ≤ ns.foldl (fun m x => max m x.w) n.w := by
         rcases List.mem_cons.1 hm with h1 | h1
         · rw [h1]; exact foldl_max_ge_init _ _ _
-        · exact foldl_max_len_ge ns _ _ h1
+        · exact foldl_max_ge_mem (fun (x : PV) => x.w) ns _ pv h1
       simp [this]
 
 /-- a hidden possible value is not among the names written inline or in the column -/
